@@ -2047,7 +2047,11 @@ class SymExec:
         fields = self.facts.all_fields(qual)
         is_dc = any(self.facts.cls(q).is_dataclass for q in self.facts.mro(qual) if q in self.facts.classes)
         init = self.facts.find_method(qual, '__init__')
-        if init and init in self.facts.functions and self.inline and init not in self.stack and len(self.stack) < MAX_INLINE:
+        # exception objects are opaque: what their constructors do with the message is a matter of its own (C16.R8), and a
+        # `raise E(...)` is one step for every rule that looks at raise sites
+        is_exc = any(b in ('Exception', 'BaseException') or b.endswith('Error') for b in self.facts.ext_bases(qual))
+        if init and init in self.facts.functions and self.inline and init not in self.stack and len(self.stack) < MAX_INLINE \
+                and not is_exc:
             # run the explicit __init__ and read the fields off the attribute stores on self
             fi = self.facts.functions[init]
             obj = ('obj', qual, eid)
